@@ -34,13 +34,26 @@ pub mod hash_table {
                 None => Err(AbsentEntry { table: self }),
             }
         }
-        pub fn entry(&mut self, hash: u64, eq: impl FnMut(&T) -> bool, _hasher: impl Fn(&T) -> u64) -> Entry<'_, T> {
+        /// hashbrown's API contract for every `hasher` argument: "this must return the same hash value that each entry was
+        /// inserted with" (the real table calls it whenever it grows, which `entry` / `insert_unique` may do at any call).
+        /// The stand-in never grows, so it checks the contract on every stored element instead.
+        fn check_hasher(&self, hasher: &impl Fn(&T) -> u64) {
+            let mut i = 0;
+            while i < self.items.len() {
+                assert!(hasher(&self.items[i].1) == self.items[i].0, "[rehash_closure_returns_the_hash_the_element_was_stored_under] hashbrown: `hasher` must return the hash each entry was inserted with");
+                i += 1;
+            }
+        }
+        pub fn entry(&mut self, hash: u64, eq: impl FnMut(&T) -> bool, hasher: impl Fn(&T) -> u64) -> Entry<'_, T> {
+            self.check_hasher(&hasher);
             match self.position(hash, eq) {
                 Some(index) => Entry::Occupied(OccupiedEntry { table: self, index }),
                 None => Entry::Vacant(VacantEntry { table: self, hash }),
             }
         }
-        pub fn insert_unique(&mut self, hash: u64, value: T, _hasher: impl Fn(&T) -> u64) -> OccupiedEntry<'_, T> {
+        pub fn insert_unique(&mut self, hash: u64, value: T, hasher: impl Fn(&T) -> u64) -> OccupiedEntry<'_, T> {
+            self.check_hasher(&hasher);
+            assert!(hasher(&value) == hash, "[rehash_closure_returns_the_hash_the_element_was_stored_under] hashbrown: `hasher` must return the hash each entry was inserted with");
             self.items.push((hash, value));
             let index = self.items.len() - 1;
             OccupiedEntry { table: self, index }
